@@ -84,16 +84,21 @@ def items():
 impl UpdateTrailingTrivia for TableConstructor {
     open spec fn same_sem_t(&self, r: &Self) -> bool { table_id(*r) == table_id(*self) }
     open spec fn trail_ok(&self, t: FormatTriviaType, r: &Self) -> bool { true }
+    open spec fn not_open(&self) -> bool { other_closed(*self) }
     #[verifier::external_body] fn update_trailing_trivia(&self, trailing_trivia: FormatTriviaType) -> (r: Self) { unimplemented!() }
 }
 impl UpdateLeadingTrivia for TableConstructor {
     open spec fn same_sem(&self, r: &Self) -> bool { table_id(*r) == table_id(*self) }
     open spec fn lead_ok(&self, t: FormatTriviaType, r: &Self) -> bool { true }
+    open spec fn on_new_line(&self) -> bool { other_nl(*self) }
+    open spec fn rest_same(&self, r: &Self) -> bool { true }
     #[verifier::external_body] fn update_leading_trivia(&self, leading_trivia: FormatTriviaType) -> (r: Self) { unimplemented!() }
 }
 impl UpdateLeadingTrivia for FunctionArgs {
     open spec fn same_sem(&self, r: &Self) -> bool { args_sem(*r) == args_sem(*self) && (*r is Parentheses) == (*self is Parentheses) && (*r is String) == (*self is String) }
     open spec fn lead_ok(&self, t: FormatTriviaType, r: &Self) -> bool { t is Append && t->Append_0@.len() == 1 ==> args_lead_last(*r) == t->Append_0@[0] }
+    open spec fn on_new_line(&self) -> bool { other_nl(*self) }
+    open spec fn rest_same(&self, r: &Self) -> bool { true }
     #[verifier::external_body] fn update_leading_trivia(&self, leading_trivia: FormatTriviaType) -> (r: Self) { unimplemented!() }
 }
 #[verifier::external_body] pub fn paren_close_trailing(parentheses: &ContainedSpan) -> (r: Vec<Token>) { unimplemented!() /* parentheses.tokens().1.trailing_trivia().cloned().collect() */ }
